@@ -4,7 +4,11 @@ function split(input, delimiter)
     return arr
 end
 
-annotations = obj.annotations
+annotations = {}
+if ( obj.annotations )
+then
+    annotations = obj.annotations
+end
 annotations["nginx.ingress.kubernetes.io/canary"] = "true"
 annotations["nginx.ingress.kubernetes.io/canary-by-cookie"] = nil
 annotations["nginx.ingress.kubernetes.io/canary-by-header"] = nil
@@ -14,6 +18,11 @@ annotations["nginx.ingress.kubernetes.io/canary-by-header-value"] = nil
 annotations["mse.ingress.kubernetes.io/canary-by-query"] = nil
 annotations["mse.ingress.kubernetes.io/canary-by-query-pattern"] = nil
 annotations["mse.ingress.kubernetes.io/canary-by-query-value"] = nil
+-- the query and header-control annotations this script sets below
+annotations["nginx.ingress.kubernetes.io/canary-by-query"] = nil
+annotations["nginx.ingress.kubernetes.io/canary-by-query-pattern"] = nil
+annotations["nginx.ingress.kubernetes.io/canary-by-query-value"] = nil
+annotations["mse.ingress.kubernetes.io/request-header-control-update"] = nil
 annotations["nginx.ingress.kubernetes.io/canary-weight"] = nil
 if ( obj.weight ~= "-1" )
 then
